@@ -51,6 +51,8 @@ def walk(acc, items, ex, compress, rcase):
                 return False
             if k == 'gap' and data != b'G' * it['n']:
                 core.add_viol(acc, 'gap bytes changed', rcase, {})
+            if k == 'string' and data != it['text'].encode('utf-8'):
+                core.add_viol(acc, 'line %d `string %s` emitted %s, its UTF-8 text is %s' % (idx + 1, it['text'], data.hex(), it['text'].encode('utf-8').hex()), rcase, {})
             if k == 'seq':
                 w = P.SEQ_W[it['d']]
                 exp = b''.join((v % (1 << (8 * w))).to_bytes(w, 'little') for v in it['vals'])
@@ -128,10 +130,12 @@ def run_case(asm, acc, case):
             # odd offsets are allowed here; drop anything with a pc-relative label operand that may have slipped in
             items = [it for it in items if not (it['k'] in ('inst', 'pseudo') and P.label_dependent(it['ops']))]
     sizes = {}
+    eol = '\r\n' if (case.get('idx', case.get('shift', 0)) % 4 == 3) else '\n'
+    core.see(acc, 'line_endings', repr(eol))
     for compress in (False, True):
         acc['n'] += 1
         rcase = dict(case, compress=compress)
-        ex = progcheck.examine(asm, items, compress, judge=False)
+        ex = progcheck.examine(asm, items, compress, judge=False, eol=eol)
         if not ex.ok:
             acc['ctr']['refused'] += 1
             acc['ctr']['refused:' + ex.exc['msg'][:40]] += 1
